@@ -27,6 +27,35 @@ from .. import mime_c03 as M
 COQ_MAX = 2048          # larger inputs are checked by the monitors only
 
 
+class CoqJobs:
+    """The case files of the different sections are evaluated concurrently
+    (coqc is single-threaded) while the harness goes on driving the server."""
+
+    def __init__(self, ctx) -> None:
+        from concurrent.futures import ThreadPoolExecutor
+        self.ctx = ctx
+        self.pool = ThreadPoolExecutor(max_workers=8)
+        self.jobs = []
+
+    def submit(self, name, typ, cases, checker, inputs, shard=150, jobs=4) -> None:
+        if not cases:
+            return
+        fut = self.pool.submit(self.ctx.run_cases, name, M.HEADER, typ, cases, checker,
+                               shard=shard, jobs=jobs)
+        self.jobs.append((name, fut, inputs))
+
+    def finish(self) -> None:
+        for name, fut, inputs in self.jobs:
+            bad = fut.result()
+            for i in bad[:5]:
+                d = inputs[i]
+                if isinstance(d, tuple):
+                    d = d[0]
+                self.ctx.disagreement(name, {'input': d.hex()[:2000] if isinstance(d, bytes)
+                                             else repr(d)})
+        self.pool.shutdown()
+
+
 # ------------------------------------------------------------------ inputs
 BASES = [
     b'a: b\r\n\r\nc\r\n',
@@ -55,27 +84,48 @@ SPECIALS = [
 MP_HEADER = b'Content-Type:multipart/x;boundary=a\n\n'
 
 
+def sweep(base: bytes, subst_vals, insert_vals):
+    for k in range(len(base) + 1):
+        for c in insert_vals:
+            yield base[:k] + bytes([c]) + base[k:]
+        if k < len(base):
+            for c in subst_vals:
+                yield base[:k] + bytes([c]) + base[k + 1:]
+
+
+SWEEP_VALS = [0, 9, 10, 11, 12, 13, 32, 33, 45, 58, 59, 61, 97, 98, 127, 128, 255]
+SWEEP_QUICK = [0, 9, 10, 13, 32, 45, 58, 59, 61, 97, 255]
+
+
 def pure_inputs(ctx):
     """(family, d, with_fetch_case) — everything here also goes to Coq when
     len(d) <= COQ_MAX"""
     rng = ctx.rng
     out = []
-    n_small = ctx.scale(6, 7)
+    n_small = ctx.scale(4, 7)
     for d in M.small_strings(M.SMALL_ALPHABET, n_small):
-        out.append(('small', d, len(d) <= ctx.scale(4, 5)))
-    for tail in M.small_strings(b'-a\n ', ctx.scale(6, 8)):
+        out.append(('small', d, len(d) <= ctx.scale(3, 5)))
+    for _ in range(ctx.scale(3500, 0)):       # quick: a sample of the longer ones
+        n = rng.randint(5, 8)
+        out.append(('small', bytes(rng.choice(M.SMALL_ALPHABET) for _ in range(n)), False))
+    for tail in M.small_strings(b'-a\n ', ctx.scale(5, 8)):
         out.append(('multipart_small', MP_HEADER + tail, len(tail) <= 4))
+    for _ in range(ctx.scale(1000, 20000)):
+        n = rng.randint(6, 12)
+        out.append(('multipart_small',
+                    MP_HEADER + bytes(rng.choice(b'--aa\n\n \r') for _ in range(n)), False))
     for d in SPECIALS:
         out.append(('special', d, True))
-    vals = range(256) if not ctx.quick else \
-        [0, 9, 10, 11, 12, 13, 32, 33, 45, 58, 59, 61, 97, 98, 127, 128, 255]
-    for d in M.byte_sweep(BASES[:1], range(256)):
-        out.append(('byte_sweep', d, True))
-    for d in M.byte_sweep(BASES[1:], vals):
-        out.append(('byte_sweep', d, True))
-    for _ in range(ctx.scale(500, 8000)):
+    k = 0
+    for i, base in enumerate(BASES):
+        full = (not ctx.quick) and i == 0
+        for d in sweep(base, range(256) if full else (SWEEP_QUICK if ctx.quick else SWEEP_VALS),
+                       range(256) if full else [10, 13, 32, 45]):
+            k += 1
+            out.append(('byte_sweep', d, k % 3 == 0))
+    for _ in range(ctx.scale(400, 8000)):
         out.append(('generated', M.gen_message(rng), True))
-    for _ in range(ctx.scale(200, 3000)):
+    for _ in range(ctx.scale(150, 3000)):
         out.append(('raw', M.gen_raw(rng, 600), True))
     for _ in range(ctx.scale(6, 120)):        # big: monitors only
         out.append(('raw_big', M.gen_raw(rng, 65536) if rng.random() < 0.5 else
@@ -91,7 +141,7 @@ def depth_of(tree) -> int:
 
 
 # ------------------------------------------------------------ pure section
-def section_pure(ctx) -> None:
+def section_pure(ctx, coq) -> None:
     rng = ctx.rng
     fams: dict = {}
     depth_hist: dict = {}
@@ -137,7 +187,7 @@ def section_pure(ctx) -> None:
             loaded = res['loaded']
             qs = [('QBody', [], None, res['full']), ('QHeader', [], None, res['hdr']),
                   ('QText', [], None, res['txt'])] + res['partials']
-            paths = [[1]] if tiny else M.tree_paths(tree, 10 if fam == 'byte_sweep' else 24)
+            paths = [[1]] if tiny else M.tree_paths(tree, 8 if fam == 'byte_sweep' else 14)
             for p in paths:
                 for kind in ('QBody', 'QMime', 'QHeader', 'QText'):
                     if tiny and kind in ('QHeader', 'QText'):
@@ -163,25 +213,15 @@ def section_pure(ctx) -> None:
         'parse_raised': raised}
     ctx.sample({'generated_message': parse_in[-1].decode('latin-1')[:300] if parse_in else ''})
 
-    def report(name, bad, inputs):
-        for i in bad[:5]:
-            d = inputs[i]
-            ctx.disagreement(name, {'input': (d if isinstance(d, bytes) else d[0]).hex()[:2000]})
-
-    report('parse_small', ctx.run_cases('parse_small', M.HEADER, 'parse_case', tiny_parse,
-                                        'chk_parse', shard=2500, jobs=12), tiny_in)
-    report('parse', ctx.run_cases('parse', M.HEADER, 'parse_case', parse_cases, 'chk_parse',
-                                  shard=150, jobs=12), parse_in)
-    report('fetch_direct', ctx.run_cases('fetch_direct', M.HEADER, 'fetch_case', fetch_cases,
-                                         'chk_fetch', shard=150, jobs=12), fetch_in)
-    report('lines', ctx.run_cases('lines', M.HEADER, 'bytes * list line', lines_cases,
-                                  'chk_lines', shard=150, jobs=12), lines_in)
-    report('parts', ctx.run_cases('parts', M.HEADER, 'parts_case', parts_cases, 'chk_parts',
-                                  shard=150, jobs=12), parts_in)
+    coq.submit('parse_small', 'parse_case', tiny_parse, 'chk_parse', tiny_in, shard=1500, jobs=6)
+    coq.submit('parse', 'parse_case', parse_cases, 'chk_parse', parse_in, shard=150, jobs=6)
+    coq.submit('fetch_direct', 'fetch_case', fetch_cases, 'chk_fetch', fetch_in, shard=150, jobs=6)
+    coq.submit('lines', 'bytes * list line', lines_cases, 'chk_lines', lines_in, shard=150, jobs=2)
+    coq.submit('parts', 'parts_case', parts_cases, 'chk_parts', parts_in, shard=150, jobs=2)
 
 
 # --------------------------------------------------------- literal section
-def section_literal(ctx) -> None:
+def section_literal(ctx, coq) -> None:
     from pymap.parsing.primitives import LiteralString
     from pymap.mime import MessageContent
     rng = ctx.rng
@@ -210,8 +250,7 @@ def section_literal(ctx) -> None:
             prefix = printed[:len(printed) - n] if n else printed
             cases.append(T.pair(T.N(n), M.enc_bytes(prefix)))
             keep.append(n)
-    for i in ctx.run_cases('literal', M.HEADER, 'N * bytes', cases, 'chk_literal')[:5]:
-        ctx.disagreement('literal', {'n': keep[i]})
+    coq.submit('literal', 'N * bytes', cases, 'chk_literal', keep, shard=400, jobs=2)
 
 
 # ------------------------------------------------------------- e2e section
@@ -224,9 +263,9 @@ def e2e_inputs(ctx, backend: str):
     for d in M.small_strings(M.SMALL_ALPHABET, (3 if ctx.quick else 4) if dict_b else 2):
         out.append(('small', d))
     vals = [0, 10, 13, 32, 45, 58, 255]
-    sweep = list(M.byte_sweep(BASES, vals))
-    rng.shuffle(sweep)
-    for d in sweep[:ctx.scale(120, 1500) if dict_b else ctx.scale(25, 200)]:
+    swept = [d for base in BASES for d in sweep(base, vals, [10, 13, 32, 45])]
+    rng.shuffle(swept)
+    for d in swept[:ctx.scale(120, 1500) if dict_b else ctx.scale(25, 200)]:
         out.append(('byte_sweep', d))
     for _ in range(ctx.scale(220, 3000) if dict_b else ctx.scale(50, 400)):
         out.append(('generated', M.gen_message(rng)))
@@ -251,6 +290,9 @@ async def one_message(ctx, e, d: bytes, fam: str, rng, coq_cases, coq_inputs,
                         'data': d[:80].hex()})
         return 'append_rejected'
     expect_loaded = M.stdlib_roundtrip(d) if backend == 'maildir' else None
+    if expect_loaded is not None:
+        h = ctx.extra.setdefault('maildir_ser_hypothesis', {'holds': 0, 'fails': 0})
+        h['holds' if expect_loaded['append'] == d == expect_loaded['copy'] else 'fails'] += 1
     try:
         tree = M.observe_parse(d)['tree']
         paths = M.tree_paths(tree, 8)
@@ -357,7 +399,7 @@ async def one_message(ctx, e, d: bytes, fam: str, rng, coq_cases, coq_inputs,
             if not same or got['bs'] != orig['bs'] or \
                     got['items'].get(b'RFC822.SIZE') != orig['items'].get(b'RFC822.SIZE'):
                 kind = 'copy_differs'
-                if expect_loaded is not None and expect_loaded != d:
+                if expect_loaded is not None and expect_loaded[where] != d:
                     kind = 'maildir_reserialised'
                 ctx.failure('copy_verbatim' if kind == 'copy_differs' else 'maildir_verbatim',
                             f'[{backend}/{where}] the {where} does not deliver the same data '
@@ -414,15 +456,14 @@ async def e2e_run(ctx, backend: str, inputs, coq_cases, coq_inputs):
     return stats
 
 
-def section_e2e(ctx, backend: str) -> None:
+def section_e2e(ctx, backend: str, coq) -> None:
     from ..pymap_env import run
     inputs = e2e_inputs(ctx, backend)
     coq_cases, coq_inputs = [], []
     stats = run(e2e_run(ctx, backend, inputs, coq_cases, coq_inputs), timeout=3000)
     ctx.extra.setdefault('imap_level', {})[backend] = {'messages': len(inputs), 'status': stats}
-    for i in ctx.run_cases(f'fetch_imap_{backend}', M.HEADER, 'fetch_case', coq_cases,
-                           'chk_fetch', shard=100, jobs=12)[:5]:
-        ctx.disagreement(f'fetch_imap_{backend}', {'input': coq_inputs[i].hex()[:2000]})
+    coq.submit(f'fetch_imap_{backend}', 'fetch_case', coq_cases, 'chk_fetch_imap', coq_inputs,
+               shard=100, jobs=4)
 
 
 # --------------------------------------------------------------------- run
@@ -445,10 +486,22 @@ def run(ctx) -> None:
         'CPython bytes/memoryview slicing and bytes.find are the semantics of the implementation side',
     ]
     ctx.check_proofs(['Mime/MimeCheck'])
-    section_pure(ctx)
-    section_literal(ctx)
-    section_e2e(ctx, 'dict')
-    section_e2e(ctx, 'maildir')
+    import time
+    timing = ctx.extra.setdefault('timing_s', {})
+    t = time.time()
+    timing['proofs'] = round(t - ctx.t0, 1)
+    coq = CoqJobs(ctx)
+    try:
+        for name, fn in (('direct', lambda: section_pure(ctx, coq)),
+                         ('literal', lambda: section_literal(ctx, coq)),
+                         ('imap_dict', lambda: section_e2e(ctx, 'dict', coq)),
+                         ('imap_maildir', lambda: section_e2e(ctx, 'maildir', coq))):
+            fn()
+            timing[name] = round(time.time() - t, 1)
+            t = time.time()
+    finally:
+        coq.finish()
+        timing['waiting_for_coq'] = round(time.time() - t, 1)
 
 
 def replay(ctx, obj) -> int:
@@ -464,7 +517,7 @@ def replay(ctx, obj) -> int:
     M.pure_monitor(ctx, d, obs, ctx.rng)
     for backend in ([obj['backend']] if obj.get('backend') in ('dict', 'maildir')
                     else ['dict', 'maildir']):
-        arun(e2e_run(ctx, backend, [('replay', d)], [], []))
+        arun(e2e_run(ctx, backend, [("replay", d)], [], []))
     for v in ctx.violations:
         print('FAILS:', v['clause'], '-', v['what'])
     for k, hit in ctx.known_hits.items():
